@@ -137,7 +137,7 @@ pub struct Ref55 {
 /// rejections of the reference compiler that are not about the grammar (scoping of labels / const / break)
 fn semantic_rejection(msg: &str) -> bool {
     ["no visible label", "break outside", "jumps into the scope", "attempt to assign to const", "already defined",
-     "too many", "overflow", "outside a vararg", "control structure too long", "chunk has too many"]
+     "too many", "overflow", "outside a vararg", "control structure too long", "chunk has too many", "not declared"]
         .iter()
         .any(|p| msg.contains(p))
 }
